@@ -126,25 +126,6 @@ func init() {
 		rc.cov("exhaustive", true)
 		rc.cov("rule", "prefix paths x filter conditions (comparisons of @, @.a, @[*], @.size() with literals of every type; exists; starts with; like_regex; && || !; is unknown; a nested filter; conditions failing suppressibly and non-suppressibly; conditions that look at $) x all JSON trees up to MaxNodes nodes plus nested-array documents x {lax, strict}; each group = the filter query, the prefix query and one predicate-check query per item; strict mode adds the consecutive-filters group")
 		rc.cov("universe", map[string]any{"prefixes": len(prefs), "conditions": len(conds), "docs": len(docs), "groups": len(groups), "constants": consts})
-		rc.groupFamily(groups, func(g Group) (Group, error) {
-			if g.Kind == "C10conj" {
-				// paths are stored in the runs themselves
-				a, err := execG(g.Runs[0].Path, g.Runs[0].Doc, nil, false)
-				if err != nil {
-					return g, err
-				}
-				b, err := execG(g.Runs[1].Path, g.Runs[1].Doc, nil, false)
-				return Group{Kind: g.Kind, Runs: []GRun{a, b}}, err
-			}
-			out := Group{Kind: g.Kind, Lax: g.Lax}
-			for _, r := range g.Runs {
-				x, err := execG(r.Path, r.Doc, r.Vars, false)
-				if err != nil {
-					return g, err
-				}
-				out.Runs = append(out.Runs, x)
-			}
-			return out, nil
-		}, "C10")
+		rc.groupFamily(groups, rerunGroup, "C10")
 	}
 }
